@@ -7,7 +7,7 @@ import numpy as np
 from props import herd
 
 ASSUMPTIONS = [
-    "digestion efficiencies read from the species object (0.6 grass / 0.8 feed in the shipped data); net energy delivered = eff_grass*grass eaten + eff_feed*feed eaten",
+    "documented digestion efficiencies 0.6 (grass) and 0.8 (feed) are used by the oracle as constants (the shipped species table has no per-species value); net energy delivered = 0.6*grass eaten + 0.8*feed eaten",
     "fed count when the requirement is not met: |fed - herd * delivered/required| <= 0.5 (the code rounds to whole animals); the same half-animal allowance applies to 'fed <= herd', 'fed = herd when the requirement is met' and 'starving >= 0' because herds are fractional and a delivery within one float rounding of the requirement takes the rounding branch",
     "priority key recomputed independently: (meat kcal per head + monthly gross feed energy per head) / slaughter hours per head, descending; without a per-head meat table the documented fallback is the approximate feed conversion, descending",
 ]
@@ -23,9 +23,13 @@ def gen_cases(tier, seed):
     return cases
 
 
+EG, EF = 0.6, 0.8
+
+
 def check_call(r, where):
     """r: one recorded feed_the_species call. -> list of (mech,msg)"""
     out = []
+    r = dict(r, eg=EG, ef=EF)
     dg, df = r["g0"] - r["g1"], r["f0"] - r["f1"]
     req, herd_n, fed = r["req"], r["herd"], r["fed"]
     sc = max(1e-12, req, r["g0"] * r["eg"], r["f0"] * r["ef"])
@@ -134,7 +138,11 @@ def direct(case):
 def run_case(case, tier):
     if case["kind"] == "direct_feed":
         return direct(case)
-    h = herd.run_herd(case)
+    try:
+        h = herd.run_herd(case)
+    except (AssertionError, ValueError, ZeroDivisionError, KeyError, IndexError, TypeError) as e:
+        return {"viol": [{"mech": "herd_simulation_raised", "msg": "%s/%s/%s: main() raised %r" % (case["iso"], case["strategy"], case["shape"], e), "data": {"iso": case["iso"]}}],
+                "obs": {"iso": case["iso"], "strategy": case["strategy"], "shape": case["shape"], "N": case["N"], "calls": 0, "partial": 0, "full": 0, "zero": 0, "with_meat_table": False, "viol_counts": {}}}
     viol = []
     seen = collections.Counter()
 
